@@ -1,7 +1,7 @@
 """C06 — check / checkmate / stalemate verdicts and move annotations."""
 from sa.sym import Engine, show, show_cond, subterms, C, is_const, PathLimit
 from .common import *
-from .tables import is_true, is_false
+from .tables import is_true, is_false, pin
 
 EXPLANATION = (
     "Static clauses: (R1) player_is_in_check(p) is 'p's king bitboard overlaps the attack map of opposite(p)' (term "
@@ -37,7 +37,7 @@ def r1_in_check(ctx):
     for o in outs:
         if o.kind != 'return':
             continue
-        col = cd.get(dict(o.conds).get(('discr', ('p', 3))))
+        col = cd.get(pin(dict(o.conds).get(('discr', ('p', 3)))))
         if col is None:
             ctx.ob(rule, name, 'path without colour test', False, found=[show_cond(c) for c in o.conds])
             continue
